@@ -74,12 +74,15 @@ def _cap(*a, **k):
 
 
 class Ref:
-    def __init__(self, prog, calldef_caller="own"):
+    def __init__(self, prog, calldef_caller="own", calldef_leak=False):
         from mc.c05_ir import CFGS
 
         # "own": a def written inside a call is a def like any other (its caller is whoever calls it with content);
         # "outer": alternative model used only to classify a known defect (it sees the call site's caller)
         self.calldef_caller = calldef_caller
+        # alternative model used only to classify a known defect: the defs written inside calls that are nested in
+        # this call's body are exported on this call's `caller` as well (later ones win)
+        self.calldef_leak = calldef_leak
 
         cfg = CFGS[prog["cfg"]]
         self.prog = prog
@@ -239,8 +242,24 @@ class Ref:
         c.body = body
         for nd in content["named"]:
             setattr(c, nd["name"], self.make_def(nd, env, keep_caller=self.calldef_caller == "outer"))
+        if self.calldef_leak:
+            for nd in inner_call_defs(content["body"]):
+                setattr(c, nd["name"], self.make_def(nd, env))
         ret = target(*a, __caller=c, **kw)
         self.emit(ret)
+
+
+def inner_call_defs(stmts):
+    """the defs written inside calls with content that occur (at any depth) in these statements, in document order"""
+    for s in stmts:
+        if s[0] == "call" and s[4] is not None:
+            for nd in s[4]["named"]:
+                yield nd
+            yield from inner_call_defs(s[4]["body"])
+        elif s[0] == "for":
+            yield from inner_call_defs(s[3])
+        elif s[0] == "block":
+            yield from inner_call_defs(s[2])
 
 
 def expected(prog, **kw):
